@@ -432,6 +432,13 @@ func (w *World) UnitMutations(root any, u Unit, hints []string, donors []any) []
 					continue
 				}
 				ms = append(ms, w.leafMutations(u, it["checksum"], Path{"items", k, "checksum"}, false)...)
+				// the item's type -> every valid item type the map does not carry yet (the decoder files the item
+				// under its inner "type")
+				for _, t := range AllBlockItemTypes {
+					if _, has := items[t.String()]; !has {
+						ms = append(ms, Mutation{Unit: u, Rel: Path{"items", k, "type"}, Op: "item-type", New: t.String()})
+					}
+				}
 			}
 		}
 		for _, f := range signFields {
